@@ -15,7 +15,11 @@ RULE = ("pools of objects per type (versions, version constraints, string constr
         "one value (1.0/1.0.0/v1.0/1.0+L/1.0+l/1.0.post0; '>=1,<2'/'>=1.0 <2.0'/'^1'; reordered and re-quoted marker text; names "
         "differing in case and separators; the same git URL with and without `.git`; extras in another order) and from results "
         "of the public algebra (x.intersect(x), x.union(x), x.union(empty), intersect/union/difference/invert/cnf/dnf of pool "
-        "members) plus grammar-generated members. Every ordered pair of a pool is one case (all triples are examined through "
+        "members) plus grammar-generated members; DERIVED objects (with_features / without_features / clone / with_constraint / "
+        "constraint, marker and python_versions setters on a clone / with-, without- and without_optional_dependency_groups / "
+        "to_dependency; marker.without_extras) next to independently constructed spellings of the derived value, each also "
+        "with a usage history (prefix \\x02: every intermediate object is hashed, put in a set, printed and probed before the "
+        "next step, so that a memo taken over from an ancestor shows). Every ordered pair of a pool is one case (all triples are examined through "
         "the equality matrix); a case is non-trivial when the two objects are different objects that compare equal, or when "
         "they belong to one family but compare unequal; distinct = distinct (kind, spec a, spec b).")
 ASSUMPTIONS = [
@@ -34,6 +38,7 @@ ASSUMPTIONS = [
 KNOWN_D16 = "vcs-reference-prefix-equality"
 KNOWN_RESOLVED = "vcs-resolved-reference-equality"
 SEP = "\x01"
+HIST = "\x02"   # spec prefix: every intermediate object is USED (hashed, put in a set, printed, probed) before the next step
 CALL_LIMIT = 4.0
 
 
@@ -71,39 +76,118 @@ def _parse_fn(kind: str) -> Callable[[str], Any]:
     raise ValueError(kind)
 
 
+def touch(kind: str, o: Any) -> Any:
+    """ordinary use of an object that fills every memo it may carry: hash, set membership, text, probes"""
+    hash(o)
+    assert o in {o}
+    try:
+        str(o)
+    except Exception:  # noqa: BLE001
+        pass
+    try:
+        if kind == "constraint":
+            from poetry.core.constraints.version import Version
+            o.is_simple()
+            o.allows(Version.parse("1.0"))
+            o.is_any()
+        elif kind == "marker":
+            o.validate({"python_version": "3.9", "python_full_version": "3.9.1", "sys_platform": "linux", "extra": set()})
+        elif kind in ("dep", "pkg", "spec"):
+            _ = o.complete_name
+            if hasattr(o, "to_pep_508"):
+                o.to_pep_508()
+    except Exception:  # noqa: BLE001
+        pass
+    return o
+
+
 def eval_spec(kind: str, spec: str) -> Any:
-    """build the real object a spec denotes"""
+    """build the real object a spec denotes (prefix HIST: with a usage history on every intermediate object)"""
+    hist = spec.startswith(HIST)
+    if hist:
+        spec = spec[1:]
+    use = (lambda o: touch(kind, o)) if hist else (lambda o: o)
     if kind in ("dep", "pkg", "spec"):
-        return eval_dep(spec)
+        return eval_dep_chain(kind, spec, use)
     parse = _parse_fn(kind)
     parts = spec.split(SEP)
-    cur = parse(parts[0])
+    cur = use(parse(parts[0]))
     i = 1
     while i < len(parts):
         o = parts[i]
         if kind == "version":
-            cur = VERSION_OPS[o](cur)
+            cur = use(VERSION_OPS[o](cur))
             i += 1
             continue
         if o == "n" and kind in ("marker", "generic", "extra"):
-            cur = cur.invert()
+            cur = use(cur.invert())
             i += 1
             continue
         if o in ("C", "D") and kind == "marker":
             from poetry.core.version import markers as M
-            cur = M.cnf(cur) if o == "C" else M.dnf(cur)
+            cur = use(M.cnf(cur) if o == "C" else M.dnf(cur))
             i += 1
             continue
-        b = parse(parts[i + 1])
+        if o == "X" and kind == "marker":
+            cur = use(cur.without_extras())
+            i += 1
+            continue
+        b = use(parse(parts[i + 1]))
         if o == "i":
-            cur = cur.intersect(b)
+            cur = use(cur.intersect(b))
         elif o == "u":
-            cur = cur.union(b)
+            cur = use(cur.union(b))
         elif o == "d":
-            cur = cur.difference(b)
+            cur = use(cur.difference(b))
         else:
             raise RuntimeError("bad chain op " + o)
         i += 2
+    return cur
+
+
+def eval_dep_chain(kind: str, spec: str, use: Callable[[Any], Any]) -> Any:
+    """`base (\x01 op [\x01 arg])*` — derivation methods of PackageSpecification / Dependency / Package:
+    wf <a,b> with_features; nf without_features; cl clone; wc <constraint> with_constraint; sc <constraint> constraint
+    setter on a clone; sm <marker> marker setter on a clone; sp <python> python_versions setter on a clone;
+    wg <groups> with_dependency_groups; ng <groups> without_dependency_groups; og without_optional_dependency_groups;
+    td to_dependency"""
+    parts = spec.split(SEP)
+    cur = use(eval_dep(parts[0]))
+    lst = lambda a: [x for x in a.split(",") if x]  # noqa: E731
+    i = 1
+    while i < len(parts):
+        o = parts[i]
+        arg = parts[i + 1] if i + 1 < len(parts) else ""
+        step = 2
+        if o == "wf":
+            cur = cur.with_features(lst(arg))
+        elif o == "nf":
+            cur, step = cur.without_features(), 1
+        elif o == "cl":
+            cur, step = cur.clone(), 1
+        elif o == "wc":
+            cur = cur.with_constraint(arg)
+        elif o == "sc":
+            cur = cur.clone()
+            cur.constraint = arg
+        elif o == "sm":
+            cur = cur.clone()
+            cur.marker = arg
+        elif o == "sp":
+            cur = cur.clone()
+            cur.python_versions = arg
+        elif o == "wg":
+            cur = cur.with_dependency_groups(lst(arg))
+        elif o == "ng":
+            cur = cur.without_dependency_groups(lst(arg))
+        elif o == "og":
+            cur, step = cur.without_optional_dependency_groups(), 1
+        elif o == "td":
+            cur, step = cur.to_dependency(), 1
+        else:
+            raise RuntimeError("bad derivation op " + o)
+        cur = use(cur)
+        i += step
     return cur
 
 
@@ -357,6 +441,9 @@ def oracle(ctx: core.Ctx, kind: str, pool: list[Obj], stream: str) -> tuple[list
                 violate(ctx, kind, "symmetric", f"{a.spec!r} == {b.spec!r} but not the other way round", [a, b])
             if hs[i] is not None and hs[j] is not None and hs[i] != hs[j]:
                 violate(ctx, kind, "hash", f"{a.spec!r} == {b.spec!r} ({a.dump} / {b.dump}) but the hashes differ", [a, b])
+            elif hs[i] is not None and hs[j] is not None and (hash(a.obj) != hash(b.obj) or a.obj not in {b.obj}):
+                # the hash asked again (after the comparisons above) or set membership disagrees
+                violate(ctx, kind, "set-membership", f"{a.spec!r} == {b.spec!r} but `a in {{b}}` is false", [a, b])
             if a.beh != b.beh:
                 violate(ctx, kind, "interchangeable", f"{a.spec!r} == {b.spec!r} but they behave differently "
                         f"({a.beh[:60]} / {b.beh[:60]})", [a, b])
@@ -597,6 +684,8 @@ MARKER_FAMILIES: dict[str, list[str]] = {
     "any": ["", "*", 'python_version >= "3.8"\x01u\x01python_version < "3.8"', 'python_version >= "3.8" or python_version < "3.8"', "\x01i\x01", '<empty>\x01n'],
     "empty": ["<empty>", 'python_version >= "3.8"\x01i\x01python_version < "3.8"', 'python_version >= "3.8" and python_version < "3.8"',
               "\x01n", 'sys_platform == "linux" and sys_platform == "darwin"', 'os_name == "nt"\x01i\x01os_name == "posix"'],
+    "noextras": ['python_version >= "3.8" and extra == "a"\x01X', 'python_version >= "3.8"', 'extra == "a" or python_version >= "3.8"\x01X\x01n\x01n',
+                 '(python_version >= "3.8" and extra == "a") or (python_version >= "3.8" and extra == "b")\x01X'],
     "alias": ['os_name == "nt"', 'os.name == "nt"', "os.name=='nt'", 'os_name == "nt"\x01C'],
     "eqops": ['os_name == "nt"', 'os_name === "nt"', 'os_name = "nt"'],
 }
@@ -761,7 +850,7 @@ def model_compare(ctx: core.Ctx, kind: str, pool: list[Obj], objs: list[Obj], ro
         return
     if any(not core.valid_utf8(s) for s in specs):
         return
-    rep = core.run_driver([core.line("eqh", kind, *specs)], timeout=900)[0]
+    rep = core.run_driver([core.line("eqh", kind, *[x.lstrip(HIST) for x in specs])], timeout=900)[0]
     dis = 0
     if rep[0] != "ok" or len(rep) != 5 + len(specs):
         ctx.disagree(stream + ":protocol", kind, "ok", rep[:3])
@@ -820,7 +909,7 @@ def model_compare(ctx: core.Ctx, kind: str, pool: list[Obj], objs: list[Obj], ro
 def dep_model_compare(ctx: core.Ctx, objs: list[Obj], rows: list[int], hs: list[Any], stream: str) -> None:
     """requirement texts of the dependency pool against Model/Dep.lean (driver op `depeq` of C10): `==` both ways and
     `model hash keys equal => real hashes equal`"""
-    idx = [i for i, o in enumerate(objs) if o.spec.startswith("508|") and core.valid_utf8(o.spec)]
+    idx = [i for i, o in enumerate(objs) if o.spec.startswith("508|") and SEP not in o.spec and core.valid_utf8(o.spec)]
     pairs = [(i, j) for i in idx for j in idx]
     if len(pairs) > 2500:
         pairs = ctx.rng.sample(pairs, 2500)
@@ -866,11 +955,81 @@ def real_coherent(m: Any) -> bool:
 # entry points
 # ----------------------------------------------------------------------------------------
 
+def with_history(ctx: core.Ctx, specs: list[tuple[str, str]], share: float) -> list[tuple[str, str]]:
+    """every derived member (a spec with at least one step) also with a usage history on all intermediate objects; a share of
+    the plain ones too (parsers are cached: the object a text denotes may be shared with earlier users)"""
+    out = list(specs)
+    for fam, sp in specs:
+        if sp.startswith(HIST):
+            continue
+        if SEP in sp or ctx.rng.random() < share:
+            out.append((fam, HIST + sp))
+    return out
+
+
+DERIVED_DEPS: list[tuple[str, str]] = [
+    # (family, spec): members of one family are spellings of one value
+    ("d-c1", "508|Foo_Bar[Extra_A] (>=1,<2)\x01nf"), ("d-c1", "508|Foo_Bar[Extra_A] (>=1,<2)\x01wf\x01"), ("d-c1", "508|foo.bar>=1.0,<2.0"),
+    ("d-c1", "dep|FOO--BAR|^1|a,b\x01nf"), ("d-c1", "508|foo-bar==3.0\x01wc\x01>=1,<2"), ("d-c1", "508|foo_bar\x01sc\x01^1.0"),
+    ("d-c1", "508|foo.bar>=1.0,<2.0\x01cl"), ("d-c1", "508|Foo_Bar[x]>=1,<2 ; python_version >= '3.8'\x01nf"),
+    ("d-c1", "508|foo-bar>=1,<2\x01sm\x01sys_platform == 'linux'"), ("d-c1", "508|foo-bar>=1,<2\x01sp\x01>=3.8"),
+    ("d-c1x", "508|Foo_Bar[Extra_A] (>=1,<2)\x01wf\x01Other.Extra"), ("d-c1x", "508|foo-bar[other_extra]>=1,<2"),
+    ("d-c1x", "508|foo.bar>=1.0,<2.0\x01wf\x01OTHER-EXTRA"), ("d-c1x", "dep|foo_bar|^1|other.extra"),
+    ("d-c1x", "508|foo-bar[a,b]>=1,<2\x01wf\x01other_extra\x01cl"),
+    ("d-c1ab", "508|foo-bar>=1,<2\x01wf\x01b,A"), ("d-c1ab", "508|Foo.Bar[a,b] (>=1.0,<2.0)"), ("d-c1ab", "508|foo-bar[a]>=1,<2\x01wf\x01a,b"),
+    ("d-git", "508|foo-bar[x] @ git+https://github.com/a/b.git@main\x01nf"), ("d-git", "508|Foo_Bar @ git+https://github.com/a/b.git@main"),
+    ("d-git", "vcs|foo.bar|https://github.com/a/b|git|branch|main|-|-|x,y\x01wf\x01"), ("d-git", "508|foo-bar @ git+https://github.com/a/b.git@main\x01cl"),
+    ("d-gitx", "508|foo-bar @ git+https://github.com/a/b.git@main\x01wf\x01X"), ("d-gitx", "508|foo-bar[x] @ git+https://github.com/a/b.git@main"),
+    ("d-url", "508|foo-bar[x] @ https://example.com/foo_bar-1.0.tar.gz\x01nf"), ("d-url", "url|Foo_Bar|https://example.com/foo_bar-1.0.tar.gz|-|-"),
+    ("d-v1", "pkg|Foo_Bar|1.0|-|-|-|-|-|-\x01td"), ("d-v1", "dep|foo-bar|1.0|-"), ("d-v1", "508|foo.bar==1.0"),
+    ("d-v1", "pkg|foo-bar|1.0.0|-|-|-|-|-|Extra_A\x01nf\x01td"),
+]
+DERIVED_PKGS: list[tuple[str, str]] = [
+    ("k-1", "pkg|Foo_Bar|1.0|-|-|-|-|-|Extra_A\x01nf"), ("k-1", "pkg|foo-bar|1.0.0|-|-|-|-|-|-"), ("k-1", "pkg|foo.bar|1.0|-|-|-|-|-|a,b\x01wf\x01"),
+    ("k-1", "pkg|foo-bar|1.0|-|-|-|-|-|-\x01cl"), ("k-1", "pkg|foo-bar|1.0|-|-|-|-|-|-\x01wg\x01dev"), ("k-1", "pkg|foo-bar|1.0|-|-|-|-|-|-\x01ng\x01main"),
+    ("k-1", "pkg|foo-bar|1.0|-|-|-|-|-|-\x01og"),
+    ("k-1x", "pkg|Foo_Bar|1.0|-|-|-|-|-|Extra_A\x01wf\x01Other.Extra"), ("k-1x", "pkg|foo-bar|1.0.0|-|-|-|-|-|other_extra"),
+    ("k-1x", "pkg|foo-bar|1.0|-|-|-|-|-|-\x01wf\x01OTHER-EXTRA\x01cl"),
+    ("k-g", "pkg|foo-bar|1.0|git|https://github.com/a/b.git|main|abcdef0123|-|x\x01nf"), ("k-g", "pkg|Foo_Bar|1.0.0|git|https://github.com/a/b|main|abcdef0123|-|-"),
+]
+DERIVED_SPECS: list[tuple[str, str]] = [
+    ("s-1", "spec|Foo_Bar|-|-|-|-|-|Extra_A\x01nf"), ("s-1", "spec|foo-bar|-|-|-|-|-|-"), ("s-1", "spec|foo.bar|-|-|-|-|-|a\x01wf\x01"),
+    ("s-1", "spec|foo-bar|-|-|-|-|-|-\x01cl"),
+    ("s-1x", "spec|Foo_Bar|-|-|-|-|-|Extra_A\x01wf\x01Other.Extra"), ("s-1x", "spec|foo-bar|-|-|-|-|-|other_extra"),
+    ("s-g", "spec|foo-bar|git|https://github.com/a/b.git|main|-|-|x\x01nf"), ("s-g", "spec|Foo_Bar|git|https://github.com/a/b|main|-|-|-"),
+]
+
+
 def pools(ctx: core.Ctx, scale: int) -> list[tuple[str, list[tuple[str, str]]]]:
+    return [(k, with_history(ctx, sp, 0.15)) for k, sp in _pools(ctx, scale)]
+
+
+def _pools(ctx: core.Ctx, scale: int) -> list[tuple[str, list[tuple[str, str]]]]:
     return [("version", version_pool(ctx, 60 * scale)), ("constraint", constraint_pool(ctx, 45 * scale)),
             ("generic", generic_pool(ctx, False, 20 * scale)), ("extra", generic_pool(ctx, True, 20 * scale)),
-            ("marker", marker_pool(ctx, 24 * scale)), ("dep", dep_pool(ctx, 20 * scale)), ("pkg", pkg_pool(ctx, 20 * scale)),
-            ("spec", spec_pool(ctx))]
+            ("marker", marker_pool(ctx, 24 * scale)), ("dep", dep_pool(ctx, 20 * scale) + DERIVED_DEPS + derived_deps(ctx, 12 * scale)),
+            ("pkg", pkg_pool(ctx, 20 * scale) + DERIVED_PKGS), ("spec", spec_pool(ctx) + DERIVED_SPECS)]
+
+
+def derived_deps(ctx: core.Ctx, n: int) -> list[tuple[str, str]]:
+    """generated derivations: a dependency with random extras re-targeted to another extras set / constraint, next to the
+    directly constructed dependency with that extras set / constraint"""
+    rnd = ctx.rng
+    out: list[tuple[str, str]] = []
+    names = ["pkg", "Pkg", "p-k.g", "P_K-G"]
+    exs = ["", "a", "a,b", "B,a", "Foo_Bar", "foo.bar"]
+    for k in range(n):
+        nm, nm2 = rnd.choice(names[:2]) if rnd.random() < 0.5 else rnd.choice(names[2:]), None
+        nm2 = rnd.choice(names[:2]) if nm in names[:2] else rnd.choice(names[2:])
+        c = V.gen_constraint(rnd, max_groups=1, max_clauses=2)
+        e1, e2 = rnd.choice(exs), rnd.choice(exs)
+        fam = f"dg{k}"
+        out.append((fam, f"dep|{nm}|{c}|{e1 or '-'}" + SEP + "wf" + SEP + e2))
+        out.append((fam, f"dep|{nm2}|{c}|{e2 or '-'}"))
+        out.append((fam, f"dep|{nm2}|*|{e2 or '-'}" + SEP + "wc" + SEP + c))
+        if rnd.random() < 0.5:
+            out.append((fam, f"dep|{nm}|{c}|{e1 or '-'}" + SEP + "cl" + SEP + "wf" + SEP + e2 + SEP + "cl"))
+    return out
 
 
 def run_round(ctx: core.Ctx, scale: int, tag: str, with_model: bool = True) -> None:
@@ -892,6 +1051,9 @@ def corpus(ctx: core.Ctx) -> None:
     for kind, specs in (("marker", ['"lin" in sys_platform', 'sys_platform in "lin"', "'lin' in sys_platform", 'sys_platform == "lin"']),
                         ("version", ["1.0", "1.0+0", "1.0+a", "1.0.0", "1.0+0.0"]),
                         ("constraint", ["1.0", ">=1.0,<=1.0", "1.0.0", "1.0 || 1.0.0", "1.0+local || 1.0", "1.0 || 1.0+local || 3.0", "1.0+local || 3.0"]),
+                        ("dep", [HIST + "508|Foo_Bar[Extra_A] (>=1,<2)\x01wf\x01", "508|foo.bar>=1.0,<2.0", "508|Foo_Bar[Extra_A] (>=1,<2)\x01wf\x01",
+                                 HIST + "508|Foo_Bar[Extra_A] (>=1,<2)\x01wf\x01Other.Extra", "508|foo-bar[other_extra]>=1,<2"]),
+                        ("pkg", [HIST + "pkg|Foo_Bar|1.0|-|-|-|-|-|Extra_A\x01nf", "pkg|foo-bar|1.0.0|-|-|-|-|-|-"]),
                         ("dep", ["508|foo @ https://example.com/a.zip#subdirectory=", "508|foo @ https://example.com/a.zip", "url|foo|https://example.com/a.zip|-|-"])):
         pool = build(ctx, kind, [("corpus", s) for s in specs])
         objs, rows, hs = oracle(ctx, kind, pool, "corpus:" + kind)
